@@ -15,7 +15,9 @@
 package yamlpc
 
 import (
+	"fmt"
 	"io"
+	"reflect"
 
 	"github.com/go-openapi/runtime"
 	"gopkg.in/yaml.v3"
@@ -24,6 +26,10 @@ import (
 // YAMLConsumer creates a consumer for yaml data
 func YAMLConsumer() runtime.Consumer {
 	return runtime.ConsumerFunc(func(r io.Reader, v interface{}) error {
+		// the yaml decoder panics on destinations it cannot set: refuse them like the JSON and XML consumers do
+		if rv := reflect.ValueOf(v); !rv.IsValid() || (rv.Kind() != reflect.Ptr && rv.Kind() != reflect.Map) || rv.IsNil() {
+			return fmt.Errorf("yaml consumer: destination must be a non-nil pointer or map, got %T", v)
+		}
 		dec := yaml.NewDecoder(r)
 		return dec.Decode(v)
 	})
